@@ -95,6 +95,7 @@ UNITS = {
     "punique2_first": ("partition_unique", {"n": 2, "keep": "first"}, "A", "T", True),
     "punique2_last": ("partition_unique", {"n": 2, "keep": "last"}, "A", "T", True),
     "punique3_first": ("partition_unique", {"n": 3, "keep": "first"}, "A", "V", True),
+    "punique3_last": ("partition_unique", {"n": 3, "keep": "last"}, "A", "V", True),
     "punique2_key_last": ("partition_unique", {"n": 2, "keep": "last", "key": mod2}, "S", "T", True),
     "punique2_key_first": ("partition_unique", {"n": 2, "keep": "first", "key": mod2}, "S", "T", True),
     "window1": ("sliding_window", {"n": 1, "return_partial": True}, "A", "V", False),
@@ -158,7 +159,7 @@ def chains(length, names=None):
 
 
 HASHING = {"unique", "unique_max1", "unique_max2", "punique1", "punique2_first",
-           "punique2_last", "punique3_first"}
+           "punique2_last", "punique3_first", "punique3_last"}
 
 CORE = ["map", "filter", "acc", "acc_ws", "slice_1_n_2", "partition2", "partition2_key",
         "punique2_last", "punique2_key_first", "window2", "window2_partial", "unique",
